@@ -51,6 +51,8 @@ class Service(object):
 
   def fail(self, why):
     self._rec('fail', why)
+    if why.endswith(':FINE'):
+      return 'fine:' + why          # the one way this method returns normally
     from vlib.gen.verifsvc.ttypes import VerifError
     raise VerifError(why=why, code=len(why))
 
@@ -263,6 +265,7 @@ class KafkaBroker(BaseProtoServer):
     BaseProtoServer.__init__(self, net, host, port, policy)
     self.metadata = ([], [])
     self.next_offset = 1000
+    self.error_for = None       # callable(req) -> Kafka error code of the produce response
 
   def on_data(self, conn):
     while True:
@@ -293,7 +296,9 @@ class KafkaBroker(BaseProtoServer):
       if r['api_key'] == kc.API_PRODUCE:
         self.next_offset += 1
         req['offset'] = self.next_offset
-        topics = [(t['topic'], [(p['partition'], 0, self.next_offset) for p in t['partitions']])
+        code = self.error_for(req) if self.error_for is not None else 0
+        req['error_code'] = code
+        topics = [(t['topic'], [(p['partition'], code, self.next_offset if code == 0 else -1) for p in t['partitions']])
                   for t in r['topics']]
         body = kc.produce_response_body(topics)
       else:
